@@ -1,4 +1,6 @@
 import CC.Lemmas.Prims
+import CC.Lemmas.Issued
+import CC.Lemmas.Contig
 /-! # C17 — every issued user key is registered (bookkeeping part; the algebraic tracing relation
 is `CC.Props.C17Alg`) -/
 
@@ -68,5 +70,67 @@ theorem refresh_stays_registered (msk : Msk) (usk : Usk) (keep : Bool) (n : Rng)
       | ok x => exact ⟨rfl, hknown⟩
     · simp [refreshId, hknown] at h
   · simp [hv] at h
+
+/-- in every reachable world all registered identifiers are made of tokens drawn already -/
+theorem reachable_usersBelow (w : World) (hw : Reachable w) : w.UsersBelow := by
+  obtain ⟨n, ops, rfl⟩ := hw
+  have hstep : ∀ (ops : List Op) (w0 : World), Reachable w0 → w0.UsersBelow → (ops.foldl World.step w0).UsersBelow := by
+    intro ops
+    induction ops with
+    | nil => intro w0 _ h0; exact h0
+    | cons op rest ih =>
+      intro w0 hr h0
+      have hr' : Reachable (w0.step op) := by
+        obtain ⟨n0, ops0, rfl⟩ := hr
+        exact ⟨n0, ops0 ++ [op], by simp [List.foldl_append]⟩
+      apply ih _ hr'
+      intro id hid m hm
+      rcases step_users w0 op id hid with h | h
+      · exact Nat.lt_of_lt_of_le (h0 id h m hm) (step_rng_mono w0 op (reachable_inv w0 hr))
+      · exact (h m hm).2
+  apply hstep ops _ ⟨n, [], rfl⟩
+  -- the initial world registers nobody
+  intro id hid
+  have : (World.init n).msk.users = [] := by
+    unfold World.init updateMsk
+    split
+    · rfl
+    · simp only
+      rcases updateLoop ((setup n).1.secrets.retain fun r => ((setup n).1.structure_.omega.lookup r).isSome) (setup n).1.structure_.omega (setup n).2 with ⟨res, n'⟩
+      cases res <;> rfl
+  simp only [List.foldl_nil] at hid
+  rw [this] at hid; cases hid
+
+/-- **Identifiers are never reused, over every history.** In any reachable world a key generation
+hands out an identifier that no key generated or refreshed before carries (it is not among the
+registered identifiers), registers it, and the key stays an issued key of the master key — its
+identifier registered, its signature valid — after any further operations. -/
+theorem new_key_id_fresh_and_stays_registered (w : World) (hw : Reachable w) (p : AP) (rights : List Right)
+    (hr : w.msk.structure_.uskRights p = .ok rights) (usk : Usk)
+    (hk : (uskKeygen w.msk rights w.rng).1 = .ok usk) (ops : List Op) :
+    usk.id ∉ w.msk.users ∧ Issued (ops.foldl World.step (w.step (.keygen p))).msk usk := by
+  constructor
+  · intro hin
+    obtain ⟨_, hfresh, hlen, _, _⟩ := keygen_registers w.msk rights w.rng usk hk
+    have hb := reachable_usersBelow w hw usk.id hin
+    -- the identifier is not empty (a master key has at least one tracer when generation succeeds)
+    cases hid : usk.id with
+    | nil =>
+      unfold uskKeygen at hk
+      cases hl : latestRightSks w.msk rights with
+      | error e => simp [hl] at hk
+      | ok chains =>
+        simp only [hl] at hk
+        by_cases hnt : w.msk.ntracers = 0
+        · simp [generateUserId, hnt] at hk
+        · rw [hid] at hlen; exact hnt hlen.symm
+    | cons m ms =>
+      rw [hid] at hfresh hb
+      exact Nat.lt_irrefl _ (Nat.lt_of_lt_of_le (hb m List.mem_cons_self) (hfresh m List.mem_cons_self))
+  · have hstep : w.step (.keygen p) = ⟨(uskKeygen w.msk rights w.rng).2.1, (uskKeygen w.msk rights w.rng).2.2⟩ := by
+      simp only [World.step, hr]
+    have hi : Issued (w.step (.keygen p)).msk usk := by
+      rw [hstep]; exact keygen_issues w.msk rights w.rng usk hk
+    exact issued_stable _ ops usk hi
 
 end CC.Props.C17
